@@ -2,6 +2,7 @@ import Uhppote.Model.Events
 import Uhppote.Gen.Messages
 import Uhppote.Props.C04
 import Uhppote.Props.C03
+import Uhppote.Props.C02
 /-! # C11 — discovery returns exactly the controllers that answered, despite network noise (partial)
 
 `Model.Events.discover` is `broadcast` + `GetDevices` as a function of the datagrams the driver
@@ -75,5 +76,22 @@ theorem C11_receive_buffer : (Gen.Driver.bufSizes.lookup "Broadcast").map (fun n
 
 theorem C11_overlong_seen (n : Nat) (h : 64 < n) (d : Bytes) (hd : d.length ≠ 64) : (received n d).length ≠ 64 :=
   fun hc => hd ((C03.C03_length_visible n h 0 d).1.1 hc)
+
+/-- **each entry is the protocol decoding of its reply**: a discovery entry carries the fields (all but the function
+    code) of a reply struct that lies in the protocol's decoding relation for that datagram -/
+theorem C11_entry_is_protocol_decoding (L : Layout) (h : Gen.Messages.all.lookup "GetDeviceResponse" = some L)
+    (cfg : Cfg) (d : Bytes) (e : Entry)
+    (he : entryOf Gen.codecFacts C12.genTables C18.wireBounds cfg L d = some e) :
+    ∃ r, e.fields = r.drop 1 ∧ Spec.Codec.acceptsUnmarshal L.leaves d (.ok r) = true := by
+  unfold entryOf at he
+  split at he
+  · cases he
+  · split at he
+    · rename_i r hr
+      have hd := C02.C02_decode_relation "GetDeviceResponse" L h d
+      rw [hr] at hd
+      cases he
+      exact ⟨r, rfl, hd⟩
+    · cases he
 
 end Uhppote.Props.C11
